@@ -501,4 +501,107 @@ theorem better_adds (n : Nat) (d0 : BDoc) (ds : List BDoc) (hl : ds.length ≤ n
     simp [Holds, Better.add, vals]
   simpa using better_adds_from n d0 ds [] _ h0 (by simpa using hl) hs
 
+/-! ### "same schema" is an equivalence -/
+mutual
+theorem simVal_symm : (a b : BVal) → SimVal a b → SimVal b a
+  | .doc x, b, h => by
+    cases b with
+    | doc y => simpa [SimVal] using simDoc_symm x y (by simpa [SimVal] using h)
+    | _ => simp [SimVal] at h
+  | .arr x, b, h => by
+    cases b with
+    | arr y => simpa [SimVal] using simDoc_symm x y (by simpa [SimVal] using h)
+    | _ => simp [SimVal] at h
+  | .double _, b, h => by cases b <;> simp [SimVal] at h ⊢
+  | .bool _, b, h => by cases b <;> simp [SimVal] at h ⊢
+  | .datetime _, b, h => by cases b <;> simp [SimVal] at h ⊢
+  | .int32 _, b, h => by cases b <;> simp [SimVal] at h ⊢
+  | .timestamp _ _, b, h => by cases b <;> simp [SimVal] at h ⊢
+  | .int64 _, b, h => by cases b <;> simp [SimVal] at h ⊢
+  | .other _ _, b, h => by cases b <;> simp [SimVal] at h ⊢
+theorem simDoc_symm : (a b : BDoc) → SimDoc a b → SimDoc b a
+  | .nil, b, h => by cases b <;> simp [SimDoc] at h ⊢
+  | .cons k v r, b, h => by
+    cases b with
+    | nil => simp [SimDoc] at h
+    | cons k' v' r' =>
+      obtain ⟨hk, hv, hr⟩ : k = k' ∧ SimVal v v' ∧ SimDoc r r' := by simpa [SimDoc] using h
+      simp only [SimDoc]
+      exact ⟨hk.symm, simVal_symm v v' hv, simDoc_symm r r' hr⟩
+end
+
+mutual
+theorem simVal_trans : (a b c : BVal) → SimVal a b → SimVal b c → SimVal a c
+  | .doc x, b, c, h1, h2 => by
+    cases b with
+    | doc y =>
+      cases c with
+      | doc z => simpa [SimVal] using simDoc_trans x y z (by simpa [SimVal] using h1) (by simpa [SimVal] using h2)
+      | _ => simp [SimVal] at h2
+    | _ => simp [SimVal] at h1
+  | .arr x, b, c, h1, h2 => by
+    cases b with
+    | arr y =>
+      cases c with
+      | arr z => simpa [SimVal] using simDoc_trans x y z (by simpa [SimVal] using h1) (by simpa [SimVal] using h2)
+      | _ => simp [SimVal] at h2
+    | _ => simp [SimVal] at h1
+  | .double _, b, c, h1, h2 => by cases b <;> simp [SimVal] at h1 <;> cases c <;> simp [SimVal] at h2 ⊢
+  | .bool _, b, c, h1, h2 => by cases b <;> simp [SimVal] at h1 <;> cases c <;> simp [SimVal] at h2 ⊢
+  | .datetime _, b, c, h1, h2 => by cases b <;> simp [SimVal] at h1 <;> cases c <;> simp [SimVal] at h2 ⊢
+  | .int32 _, b, c, h1, h2 => by cases b <;> simp [SimVal] at h1 <;> cases c <;> simp [SimVal] at h2 ⊢
+  | .timestamp _ _, b, c, h1, h2 => by cases b <;> simp [SimVal] at h1 <;> cases c <;> simp [SimVal] at h2 ⊢
+  | .int64 _, b, c, h1, h2 => by cases b <;> simp [SimVal] at h1 <;> cases c <;> simp [SimVal] at h2 ⊢
+  | .other _ _, b, c, h1, h2 => by cases b <;> simp [SimVal] at h1 <;> cases c <;> simp [SimVal] at h2 ⊢
+theorem simDoc_trans : (a b c : BDoc) → SimDoc a b → SimDoc b c → SimDoc a c
+  | .nil, b, c, h1, h2 => by cases b <;> simp [SimDoc] at h1 <;> cases c <;> simp [SimDoc] at h2 ⊢
+  | .cons k v r, b, c, h1, h2 => by
+    cases b with
+    | nil => simp [SimDoc] at h1
+    | cons k' v' r' =>
+      cases c with
+      | nil => simp [SimDoc] at h2
+      | cons k'' v'' r'' =>
+        obtain ⟨e1, a1, b1⟩ : k = k' ∧ SimVal v v' ∧ SimDoc r r' := by simpa [SimDoc] using h1
+        obtain ⟨e2, a2, b2⟩ : k' = k'' ∧ SimVal v' v'' ∧ SimDoc r' r'' := by simpa [SimDoc] using h2
+        simp only [SimDoc]
+        exact ⟨e1.trans e2, simVal_trans v v' v'' a1 a2, simDoc_trans r r' r'' b1 b2⟩
+end
+
+/-- one more document of the reference's schema is accepted (while there is room) -/
+theorem holds_step (n : Nat) (d0 : BDoc) (pre : List BDoc) (c : Better) (d : BDoc) (h : Holds n d0 pre c)
+    (hl : pre.length + 1 ≤ n) (hs : SimDoc d0 d) : (c.add d).2 = .ok ∧ Holds n d0 (pre ++ [d]) (c.add d).1 := by
+  obtain ⟨h1, h2, h3, h4, h5, h6, h7⟩ := h
+  have hty := simDoc_types d0 d hs
+  have hlen : (extractDoc d).length = c.last.length := by
+    have a := congrArg List.length hty
+    have b := congrArg List.length h7
+    simp at a b; omega
+  have hroom : ¬ c.rows.length ≥ c.maxDeltas := by
+    rw [h3, h5]; simp; omega
+  constructor
+  · simp only [Better.add, h1, hroom, if_false, hlen, ne_eq, not_true_eq_false, h7, hty]
+  · simp only [Better.add, h1, hroom, if_false, hlen, ne_eq, not_true_eq_false, h7, hty]
+    exact ⟨rfl, h2, by simp [h3, vals], h4, h5, h6, hty.symm⟩
+
+theorem holds_first (n : Nat) (d : BDoc) (b : Better) (hr : b.ref = none) (hm : b.metadata = none) (hd : b.maxDeltas = n) :
+    (b.add d).2 = .ok ∧ Holds n d [] (b.add d).1 := by
+  simp [Better.add, hr, Holds, vals, hm, hd]
+
+mutual
+theorem simVal_refl : (a : BVal) → SimVal a a
+  | .doc x => by simpa [SimVal] using simDoc_refl x
+  | .arr x => by simpa [SimVal] using simDoc_refl x
+  | .double _ => by simp [SimVal]
+  | .bool _ => by simp [SimVal]
+  | .datetime _ => by simp [SimVal]
+  | .int32 _ => by simp [SimVal]
+  | .timestamp _ _ => by simp [SimVal]
+  | .int64 _ => by simp [SimVal]
+  | .other _ _ => by simp [SimVal]
+theorem simDoc_refl : (a : BDoc) → SimDoc a a
+  | .nil => by simp [SimDoc]
+  | .cons k v r => by simp only [SimDoc]; exact ⟨trivial, simVal_refl v, simDoc_refl r⟩
+end
+
 end Ftdc
